@@ -16,7 +16,7 @@ type Interner struct {
 var reserved = []string{
 	"", "DaemonSet", "file", "In", "kubernetes.io/config.source", "NoSchedule",
 	"atlassian.com/escalator", "atlassian.com/escalator-force", "atlassian.com/no-delete",
-	"Pending", "Running", "PodScheduled", "True", "default", "on-demand", "spot", "NoExecute", "PreferNoSchedule",
+	"Pending", "Running", "PodScheduled", "True", "default", "on-demand", "spot", "NoExecute", "PreferNoSchedule", "instant",
 }
 
 func NewInterner() *Interner {
